@@ -30,7 +30,27 @@ type writeSite struct {
 }
 
 func (c *Ctx) moduleFuncs() []*ssa.Function {
+	if c.modFns != nil {
+		return c.modFns
+	}
+	defer func() {
+		c.globalUsers = map[*ssa.Global][]*ssa.Function{}
+		for _, fn := range c.modFns {
+			seen := map[*ssa.Global]bool{}
+			for _, b := range fn.Blocks {
+				for _, ins := range b.Instrs {
+					for _, op := range ins.Operands(nil) {
+						if g, ok := (*op).(*ssa.Global); ok && !seen[g] {
+							seen[g] = true
+							c.globalUsers[g] = append(c.globalUsers[g], fn)
+						}
+					}
+				}
+			}
+		}
+	}()
 	var out []*ssa.Function
+	defer func() { c.modFns = out }()
 	for f := range ssautil.AllFunctions(c.prog) {
 		if f.Pkg == nil && f.Parent() == nil {
 			continue
@@ -478,21 +498,9 @@ func (e *effects) paramWrites(fn *ssa.Function, i int, depth int) []writeSite {
 // synthetic package initializer of g's own package.
 func (e *effects) globalWriteSites(g *ssa.Global) []writeSite {
 	var out []writeSite
-	for _, fn := range e.c.moduleFuncs() {
+	e.c.moduleFuncs()
+	for _, fn := range e.c.globalUsers[g] {
 		if fn.Synthetic != "" && fn.Name() == "init" && fn.Pkg == g.Pkg {
-			continue
-		}
-		uses := false
-		for _, b := range fn.Blocks {
-			for _, ins := range b.Instrs {
-				for _, op := range ins.Operands(nil) {
-					if *op == ssa.Value(g) {
-						uses = true
-					}
-				}
-			}
-		}
-		if !uses {
 			continue
 		}
 		out = append(out, e.writesFrom(fn, map[ssa.Value]bool{g: true}, "package variable "+g.Name(), 0)...)
@@ -515,7 +523,10 @@ func (c *Ctx) globalWrites(p *packages.Package, name string) []string {
 	if g == nil {
 		return []string{"variable " + name + " not found (fail closed)"}
 	}
-	e := c.newEffects()
+	if c.eff == nil {
+		c.eff = c.newEffects()
+	}
+	e := c.eff
 	var out []string
 	for _, w := range e.globalWriteSites(g) {
 		out = append(out, fmt.Sprintf("%s in %s at %s", w.what, w.fn.String(), c.pos(w.pos)))
@@ -567,4 +578,9 @@ func (c *Ctx) fieldRowWrites() []string {
 		}
 	}
 	return out
+}
+
+// directGlobalStores: write sites for a package variable of package fit (cached engine).
+func (c *Ctx) directGlobalStores(name string) []string {
+	return c.globalWrites(c.fit, name)
 }
